@@ -24,6 +24,9 @@ Definition yaw_init (b : list Z) : res yawctl :=
   | _ => Err SB_EPARSE
   end.
 
+(** sb_yaw_control_init_empty *)
+Definition yaw_empty : yawctl := mkyaw [] false 0 0.
+
 Definition yaw_is_empty (y : yawctl) : bool := (y_num_deltas y =? 0)%nat.
 
 (** cursor of the yaw player *)
